@@ -157,6 +157,34 @@ def fam_angle(ctx, box, nfree):
     ctx.outcome('angle')
 
 
+EXTRA_WITNESSES = {'quick': 8, 'thorough': 16}
+LAT_DIRS = ['1,1,1', '2,1,1', '3,2,0', '0,2,3', '1,2,2', '1,2,3', '-1,4,0', '2,3,6']
+
+
+def fam_angle_parallel(ctx, dname):
+    """exactly parallel / anti-parallel pairs b = k*a on a lattice direction, every ratio k: the cosine is exactly +-1 in
+    the reals, so float rounding decides what acos sees (the float replay of the lattice witnesses looks at that)"""
+    import math
+    a = tuple(F(x) for x in dname.split(','))
+    k = ctx.param('k')
+    ctx.assume(Or(k >= F(1, 4), k <= -F(1, 4)))
+    b = R.vscale(k, a)
+    A, Bv = Vector(*[ctx.lib(x) for x in a]), Vector(*[ctx.lib(x) for x in b])
+    for X, Y in ((A, Bv), (Bv, A)):
+        st, ang = call(lambda: X.angle(Y))
+        if st == 'raise':
+            ctx.outcome('raise')
+            ctx.fail('C18:Vector.angle raises %s' % exc_sig(ang), repr(ang))
+        if isinstance(ang, shims.SymAcos):
+            x = ang.x
+            ctx.require(And(x >= -1 - F(1, 10 ** 9), x <= 1 + F(1, 10 ** 9), Or(And(x >= 1 - F(1, 10 ** 9), k > 0), And(x <= -1 + F(1, 10 ** 9), k < 0))),
+                        'C18:angle of (anti)parallel vectors is not 0 / pi')
+        else:
+            ok_par = Or(And(k > 0, abs(ang) <= 1e-7), And(k < 0, abs(ang - math.pi) <= 1e-7))
+            ctx.require(ok_par, 'C18:angle of (anti)parallel vectors is not 0 / pi')
+    ctx.outcome('angle')
+
+
 def fam_named(ctx):
     z = Vector.zero()
     ctx.require([z[0], z[1], z[2]] == [0, 0, 0], 'C18:zero() is not the zero vector')
@@ -184,6 +212,8 @@ def families(tier, seed):
         Family('unit/box', fam_norm, ((-8, 8), 'unit'), must_reach=('unit',)),
         Family('angle/a-free', fam_angle, ((-8, 8), 3), must_reach=('angle',)),
     ]
+    for dname in (LAT_DIRS[:4] if tier == 'quick' else LAT_DIRS):
+        fams.append(Family('angle/parallel/dir:%s' % dname, fam_angle_parallel, (dname,), must_reach=('angle',)))
     if tier == 'thorough':
         fams.append(Family('normalized/bigbox', fam_norm, ((-10 ** 6, 10 ** 6), 'normalized'), must_reach=('unit',)))
         fams.append(Family('angle/5-free', fam_angle, ((-8, 8), 5), must_reach=('angle',)))
